@@ -37,6 +37,10 @@ O2 = {'y': (0, 1), '-y': (0, -1), 'x': (1, 0), '-x': (-1, 0), 'g34': (3, 4), 'gm
       'd11': (1, 1), 'g5m12': (5, -12)}
 O3_Q = list(O3)
 O2_Q = list(O2)
+# extra orientations of single classes: antiparallel to the Euler default det_pos_init, and
+# Parallel2dGeometry: "If ``det_pos_init == (0, 0)``, no rotation is performed."
+O3_ALL = dict(O3, **{'-y': (0, -1, 0)})
+O2_ALL = dict(O2, zero=(0, 0))
 
 ANG = {'std': [0.0, PI / 2, PI, 2 * PI, PI / 6, 1.0, 2.5, 3 * PI / 4, 4.0, 5.5, 3 * PI / 2, 0.1],
        'wide': [-PI, -1.0, 0.0, PI / 2, 1.0, PI, 2.5, 2 * PI, 7.0, 3 * PI, 11.0, 4 * PI]}
@@ -44,6 +48,8 @@ ARANGE = {'std': (0.0, 2 * PI), 'wide': (-PI, 4 * PI)}
 NCELL = 8
 EUL = {2: ([0.0, PI / 2, 1.0, 2 * PI, 4.0], [0.0, PI / 2, 0.7, PI]),
        3: ([0.0, PI / 2, 1.0, 2 * PI], [0.0, 0.7, PI], [0.0, 1.3, 2 * PI])}
+EUL_SMALL = {2: ([0.0, PI / 2, 1.0, 2 * PI], [0.0, 0.7, PI]),
+             3: ([0.0, 1.0, 2 * PI], [0.0, 0.7, PI], [1.3, 2 * PI])}
 EUL_MAX = (2 * PI, PI, 2 * PI)
 EUL_SHAPE = (4, 3, 2)
 D1 = [[-1.0, -0.25, 0.0, 0.7, 1.5]]
@@ -108,12 +114,29 @@ class Rec(object):
         return [{'site': s, 'symptom': y, 'detail': d} for (s, y), d in self.first.items()]
 
     def call(self, site, what, f, *a, **k):
-        """Execute odl code; an exception in an admissible configuration is a violation."""
+        """Execute odl code; an exception in an admissible configuration is a violation.
+
+        The violation is filed under the innermost odl function on the traceback (where the
+        defect lives: e.g. ``Geometry.det_point_position``, ``euler_matrix``,
+        ``CylindricalDetector.surface``), so that one defect reached through several classes
+        and methods is one site.  ``fam`` = calling-convention family for vectorised calls.
+        """
+        fam = k.pop('_fam', '')
         self.evals += 1
         try:
             return True, f(*a, **k)
         except Exception as e:           # noqa
-            self.fail(site, '%sraises:%s' % (what, type(e).__name__),
+            inner = None
+            tb = e.__traceback__
+            while tb is not None:
+                code = tb.tb_frame.f_code
+                if '/odl/' in code.co_filename:
+                    inner = code.co_qualname
+                tb = tb.tb_next
+            osite = inner or site
+            if fam and fam != 'basic':
+                osite = '%s[%s]' % (osite, fam)
+            self.fail(osite, '%sraises:%s' % (what, type(e).__name__),
                       '%s args=%s -> %r' % (site, _fmt(a), e))
             return False, None
 
@@ -333,10 +356,11 @@ def _vec(v, arr):
 def _matrix(cfg, three_d):
     """Transformation matrix for ``frommatrix`` (harness side, from the reference model)."""
     if three_d:
-        M = G.init_rotation((0, 0, 1), O3[cfg['orient']]).dot(G.rot_z(0.7))
+        M = G.init_rotation((0, 0, 1), O3_ALL[cfg['orient']]).dot(G.rot_z(0.7))
         flip = np.diag([-1.0, 1.0, 1.0])
     else:
-        M = G.init_rotation((0, 1), O2[cfg['orient']])
+        M = (G.init_rotation((0, 1), O2_ALL[cfg['orient']]) if cfg['orient'] != 'zero'
+             else G.rot2(0.7))
         flip = np.diag([-1.0, 1.0])
     if cfg['init'] == 'matrix_scaled':
         M = 2.0 * M
@@ -350,7 +374,7 @@ def partitions(cfg):
     if cls == 'Parallel3dEuler':
         n = cfg['nang']
         apart = odl.uniform_partition([0.0] * n, list(EUL_MAX[:n]), EUL_SHAPE[:n])
-        malph = [list(a) for a in EUL[n]]
+        malph = [list(a) for a in (EUL_SMALL if cfg.get('ealph') == 'small' else EUL)[n]]
     else:
         lo, hi = ARANGE[cfg['arange']]
         apart = odl.uniform_partition(lo, hi, NCELL)
@@ -399,7 +423,7 @@ def build_geom(cfg):
             pos = M.dot([0.0, 1.0])
             axes = M.dot([1.0, 0.0])
     elif three_d:
-        o = np.array(O3[cfg['orient']], dtype=float)
+        o = np.array(O3_ALL[cfg['orient']], dtype=float)
         if cls == 'Parallel3dEuler':
             # "rotation of the original ones by a matrix that transforms (0, 1, 0) to the new
             # (normalized) det_pos_init"
@@ -420,8 +444,8 @@ def build_geom(cfg):
         else:
             axes = (R0.dot(e_x), R0.dot(e_z))
     else:
-        o = np.array(O2[cfg['orient']], dtype=float)
-        R0 = G.init_rotation((0, 1), o)
+        o = np.array(O2_ALL[cfg['orient']], dtype=float)
+        R0 = G.init_rotation((0, 1), o) if np.any(o != 0) else np.eye(2)
         pos = o
         axes_given = init == 'axes'
         axes = np.array(E2) if axes_given else R0.dot([1.0, 0.0])
@@ -514,7 +538,7 @@ def build_geom(cfg):
             def make():
                 return C(apart, dpart, det_pos_init=_vec(pos, arr), **kw)
     name = C.__name__
-    site = '%s[%s].%s' % (name, det_tag(cfg), 'frommatrix' if matrix else '__init__')
+    site = '%s.%s' % (name, 'frommatrix' if matrix else '__init__')
     return make, model, site, (malph, dalph)
 
 
@@ -541,6 +565,20 @@ class Tables(object):
             self.SRC = np.array([model.src(m) for m in self.mc])
             self.U = self.SRC[:, None, :] - self.P
             self.V = self.U / np.sqrt((self.U ** 2).sum(axis=-1, keepdims=True))
+
+
+def _scalar_table(vals, model_table):
+    """Table of odl's own single-parameter answers (the property compares vectorised calls
+    with these); falls back to the model table where a single-parameter call failed."""
+    try:
+        if any(v is None for v in vals):
+            return model_table, 'model'
+        t = np.array([np.asarray(v, dtype=float) for v in vals])
+        if t.shape != model_table.shape or not np.all(np.isfinite(t)):
+            return model_table, 'model'
+        return t, 'scalar'
+    except Exception:                    # noqa
+        return model_table, 'model'
 
 
 def _rot_ok(R):
@@ -577,25 +615,35 @@ def check_motion_methods(rec, g, model, tb, malph, base, has_shift):
                 rec.fail(site, 'not_orthonormal_det1', 'angle=%s: R=%s' % (m, np.asarray(got).tolist()))
             compare(rec, site, 'differs_from_model', got, table[k], 'single parameter %s' % (m,))
         odl_scalar[name] = vals
+        vtab, vref = _scalar_table(vals, table)
         for cname, fam, midx in motion_conventions(tb.ms):
             if has_shift and max_ndim(midx) > 1 and name in ('det_refpoint', 'src_position'):
                 rec.skipped += 1        # shift functions are specified for 1-d angle arrays only
                 continue
             vsite = site if fam == 'basic' else '%s[%s]' % (site, fam)
             arg = make_arg(malph, midx, aslist=(cname == 'list'))
-            ok, got = rec.call(vsite, 'vectorized_', fn, arg)
+            ok, got = rec.call(site, 'vectorized_', fn, arg, _fam=fam)
             if not ok:
                 continue
-            exp = table[flat_index(midx, tb.ms)]
+            exp = vtab[flat_index(midx, tb.ms)]
             if name == 'rotation_matrix' and np.shape(got) == exp.shape and not _rot_ok(got):
                 rec.fail(vsite, 'not_orthonormal_det1', 'convention %s' % cname)
-            compare(rec, vsite, 'vectorized_differs_from_model', got, exp,
+            compare(rec, vsite, 'vectorized_differs_from_' + vref, got, exp,
                     'convention %s, arg=%s' % (cname, _fmt((arg,))))
     return odl_scalar
 
 
-def check_joint_methods(rec, g, model, tb, malph, dalph, base, has_shift, odl_scalar):
-    """det_point_position and det_to_src for every (motion, detector) parameter pair."""
+def check_joint_methods(rec, g, model, tb, malph, dalph, base, has_shift, odl_scalar,
+                        half=False):
+    """det_point_position and det_to_src for every (motion, detector) parameter pair.
+
+    ``half``: the single-parameter pass visits only the detector pairs with even index sum
+    (quick tier, 2-d detectors); the vectorised calls still cover the whole alphabet and are
+    then compared with the model instead of with odl's single-parameter answers."""
+    skip_d = set()
+    if half and len(tb.ds) == 2:
+        skip_d = set(j for j, ij in enumerate(itertools.product(*[range(n) for n in tb.ds]))
+                     if sum(ij) % 2)
     div = model.beam == 'divergent'
     meths = [('det_point_position', g.det_point_position, {}, tb.P)]
     meths.append(('det_to_src', g.det_to_src, {}, tb.V))
@@ -607,6 +655,15 @@ def check_joint_methods(rec, g, model, tb, malph, dalph, base, has_shift, odl_sc
         arg = float(d[0]) if len(d) == 1 else [float(x) for x in d]
         ok, got = rec.call('%s.detector.surface' % base, '', g.detector.surface, arg)
         surf.append(np.asarray(got, dtype=float) if ok else None)
+    # a detector that is not where its docstring puts it is filed under the detector class;
+    # the model comparisons of the composed methods would only repeat it
+    model_ok = True
+    for j, d in enumerate(tb.dc):
+        if surf[j] is not None and not compare(
+                rec, '%s.surface' % type(g.detector).__name__, 'differs_from_model', surf[j],
+                tb.SURF[j], 'single parameter %s' % (d,)):
+            model_ok = False
+            break
     dsites = set()
     for name, fn, kw, table in meths:
         site = '%s.%s' % (base, name)
@@ -615,12 +672,20 @@ def check_joint_methods(rec, g, model, tb, malph, dalph, base, has_shift, odl_sc
         for i, m in enumerate(tb.mc):
             marg = float(m[0]) if len(m) == 1 else [float(x) for x in m]
             for j, d in enumerate(tb.dc):
+                if j in skip_d:
+                    continue
                 darg = float(d[0]) if len(d) == 1 else [float(x) for x in d]
                 ok, got = rec.call(site, '', fn, marg, darg, **kw)
                 if not ok:
                     break
-                if compare(rec, site, 'differs_from_model', got, table[i, j],
-                           'single parameters m=%s d=%s%s' % (m, d, tag)):
+                if not model_ok:
+                    if np.shape(got) == table[i, j].shape:
+                        got_all[i, j] = got
+                    else:
+                        rec.fail(site, 'shape_not_documented', 'm=%s d=%s: shape %s'
+                                 % (m, d, np.shape(got)))
+                elif compare(rec, site, 'differs_from_model', got, table[i, j],
+                             'single parameters m=%s d=%s%s' % (m, d, tag)):
                     got_all[i, j] = got
                 elif np.shape(got) == table[i, j].shape:
                     got_all[i, j] = got
@@ -663,7 +728,7 @@ def check_joint_methods(rec, g, model, tb, malph, dalph, base, has_shift, odl_sc
                 else:
                     if abs(math.sqrt(float(v.dot(v))) - 1.0) > TOL:
                         rec.fail(site, 'not_unit_length', '%s: %s' % (ctx, v.tolist()))
-                    if not _close(v, got_all[i, 0]):
+                    if np.all(np.isfinite(got_all[i, 0])) and not _close(v, got_all[i, 0]):
                         rec.fail(site, 'ray_direction_depends_on_detector_point',
                                  '%s: %s vs %s at d=%s' % (ctx, v.tolist(),
                                                            got_all[i, 0].tolist(), tb.dc[0]))
@@ -677,18 +742,19 @@ def check_joint_methods(rec, g, model, tb, malph, dalph, base, has_shift, odl_sc
         if name == 'det_point_position':
             dpp_all = got_all
         # ---- every calling convention
+        vtab, vref = (got_all, 'scalar') if np.all(np.isfinite(got_all)) else (table, 'model')
         for cname, fam, midx, didx in joint_conventions(tb.ms, tb.ds):
-            if has_shift and max_ndim(midx) > 1:
+            if (has_shift and max_ndim(midx) > 1) or (vref == 'model' and not model_ok):
                 rec.skipped += 1
                 continue
             vsite = site if fam == 'basic' else '%s[%s]' % (site, fam)
             marg = make_arg(malph, midx)
             darg = make_arg(dalph, didx)
-            ok, got = rec.call(vsite, 'vectorized_', fn, marg, darg, **kw)
+            ok, got = rec.call(site, 'vectorized_', fn, marg, darg, _fam=fam, **kw)
             if not ok:
                 continue
             fm, fd = np.broadcast_arrays(flat_index(midx, tb.ms), flat_index(didx, tb.ds))
-            compare(rec, vsite, 'vectorized_differs_from_model', got, table[fm, fd],
+            compare(rec, vsite, 'vectorized_differs_from_' + vref, got, vtab[fm, fd],
                     'convention %s%s, args=%s' % (cname, tag, _fmt((marg, darg))))
             dsites.add(fam)
     return dsites
@@ -897,20 +963,21 @@ def run_geom(cfg):
     make, model, csite, (malph, dalph) = build_geom(cfg)
     ok, g = rec.call(csite, '', make)
     name = CLS[cfg['cls']].__name__
-    base = '%s[%s]' % (name, det_tag(cfg))
+    base = name
     if not ok:
         # documented configuration that cannot be built
-        return _result(rec, '%s:%s:unbuildable' % (base, cfg['init']))
+        return _result(rec, '%s[%s]:%s:unbuildable' % (base, det_tag(cfg), cfg['init']))
     has_shift = cfg.get('shift', 'none') != 'none'
     check_init_vectors(rec, g, model, cfg, csite)
     tb = Tables(model, malph, dalph)
     odl_scalar = check_motion_methods(rec, g, model, tb, malph, base, has_shift)
-    check_joint_methods(rec, g, model, tb, malph, dalph, base, has_shift, odl_scalar)
-    if cfg['cls'] != 'Parallel3dEuler':
-        check_slicing(rec, g, model, cfg, base, has_shift)
+    check_joint_methods(rec, g, model, tb, malph, dalph, base, has_shift, odl_scalar,
+                        half=cfg.get('scal') == 'half')
     check_astra_vectors(rec, g, model, cfg)
-    return _result(rec, '%s:%s' % (base, 'matrix' if cfg['init'].startswith('matrix')
-                                   else 'ctor'))
+    if cfg['cls'] != 'Parallel3dEuler':
+        check_slicing(rec, g, model, cfg, base, has_shift)      # last: slicing may corrupt g
+    return _result(rec, '%s[%s]:%s' % (base, det_tag(cfg),
+                                       'matrix' if cfg['init'].startswith('matrix') else 'ctor'))
 
 
 def _result(rec, tag):
@@ -963,16 +1030,29 @@ def run_det(cfg):
         fn = getattr(det, name)
         site = '%s.%s' % (base, name)
         table = tabs[name]
+        if name != 'surface' and ('%s.surface' % base, 'differs_from_model') in rec.first:
+            # misplaced detector: derivative and normal of the model surface say nothing new;
+            # compare the vectorised calls with odl's own single-parameter answers only
+            table = None
+        vals = []
         for k, d in enumerate(dc):
             arg = float(d[0]) if len(d) == 1 else [float(x) for x in d]
             ok, got = rec.call(site, '', fn, arg)
+            vals.append(got if ok else None)
             if not ok:
                 break
             if name == 'surface_measure' and not isinstance(got, float):
                 # "If a single parameter is provided, a float is returned"
                 rec.fail(site, 'shape_not_documented', 'single parameter %s: documented float, '
                          'got %s' % (d, type(got).__name__))
-            compare(rec, site, 'differs_from_model', got, table[k], 'single parameter %s' % (d,))
+            if table is not None:
+                compare(rec, site, 'differs_from_model', got, table[k],
+                        'single parameter %s' % (d,))
+        vals += [None] * (len(dc) - len(vals))
+        vtab, vref = _scalar_table(vals, tabs[name])
+        if table is None and vref == 'model':
+            rec.skipped += 1
+            continue
         for cname, fam, idx in motion_conventions(ds):
             if fam == 'within' and (name == 'surface_normal'
                                     or (name == 'surface_deriv' and curved)):
@@ -983,11 +1063,11 @@ def run_det(cfg):
                 continue
             vsite = site if fam == 'basic' else '%s[%s]' % (site, fam)
             arg = make_arg(alph, idx, aslist=(cname == 'list'))
-            ok, got = rec.call(vsite, 'vectorized_', fn, arg)
+            ok, got = rec.call(site, 'vectorized_', fn, arg, _fam=fam)
             if not ok:
                 continue
-            compare(rec, vsite, 'vectorized_differs_from_model', got,
-                    table[flat_index(idx, ds)], 'convention %s, arg=%s' % (cname, _fmt((arg,))))
+            compare(rec, vsite, 'vectorized_differs_from_' + vref, got,
+                    vtab[flat_index(idx, ds)], 'convention %s, arg=%s' % (cname, _fmt((arg,))))
     return _result(rec, base)
 
 
@@ -1003,15 +1083,22 @@ def run_util(cfg):
         ms = tuple(len(a) for a in alph)
         mc = list(itertools.product(*alph))
         table = np.array([G.rot2(m[0]) if n == 1 else G.euler_zxz(*m) for m in mc])
-        site = 'euler_matrix[%d angles]' % n
+        site = 'euler_matrix'
         for k, m in enumerate(mc):
             ok, got = rec.call(site, '', UT.euler_matrix, *[float(x) for x in m])
             if ok:
                 compare(rec, site, 'differs_from_model', got, table[k], 'angles %s' % (m,))
+        if n == 3:
+            # "the default ``None`` is equivalent to ``0.0``"
+            for phi, psi in itertools.product(alph[0], alph[2]):
+                ok, got = rec.call(site, '', UT.euler_matrix, float(phi), None, float(psi))
+                if ok:
+                    compare(rec, site, 'differs_from_model', got, G.euler_zxz(phi, 0.0, psi),
+                            'angles (%s, None, %s)' % (phi, psi))
         for cname, fam, idx in motion_conventions(ms):
             vsite = site if fam == 'basic' else site + '[within]'
             args = [make_arg([a], (i,), aslist=(cname == 'list')) for a, i in zip(alph, idx)]
-            ok, got = rec.call(vsite, 'vectorized_', UT.euler_matrix, *args)
+            ok, got = rec.call(site, 'vectorized_', UT.euler_matrix, *args, _fam=fam)
             if ok:
                 # "broadcast(phi, theta, psi).shape + (ndim, ndim)"
                 compare(rec, vsite, 'vectorized_differs_from_model', got,
@@ -1224,7 +1311,7 @@ def run_factory(cfg):
         rec.fail(site, sym, 'corner %s at angle %.6g projects to detector parameter %s, '
                  'detector range %s..%s' % (worst[k][2], worst[k][1], worst[k][3], dmin.tolist(),
                                             dmax.tolist()))
-    if fac == 'helical_geometry' and not np.all(seen):
+    if fac == 'helical_geometry' and not cfg.get('num_angles') and not np.all(seen):
         rec.fail(site, 'volume_corner_never_seen', 'corners %s are inside the detector window '
                  'at no angle of the grid' % corners[~seen].tolist())
     return _result(rec, site)
@@ -1254,7 +1341,7 @@ def _geom_dims(cls, tier):
     o3, o2 = list(O3), list(O2)
     common = [('transl', [0, 1]), ('arr', [0, 1]), ('cb', [1, 0])]
     if cls == 'Parallel2d':
-        return [('orient', o2), ('init', ['default', 'axes', 'matrix', 'matrix_scaled',
+        return [('orient', o2 + ['zero']), ('init', ['default', 'axes', 'matrix', 'matrix_scaled',
                                           'matrix_mirror']),
                 ('arange', ['std', 'wide'])] + common
     if cls == 'Parallel3dAxis':
@@ -1262,7 +1349,7 @@ def _geom_dims(cls, tier):
                                           'matrix_scaled', 'matrix_mirror']),
                 ('arange', ['std', 'wide'])] + common
     if cls == 'Parallel3dEuler':
-        o3e = ['y', '-y'] + [o for o in o3 if o not in ('y', '-y')]
+        o3e = ['y', '-y'] + [o for o in o3 if o != 'y']
         return [('orient', o3e), ('nang', [2, 3]),
                 ('init', ['default', 'axes', 'matrix', 'matrix_scaled', 'matrix_mirror'])] + common
     if cls == 'FanBeam':
@@ -1275,7 +1362,7 @@ def _geom_dims(cls, tier):
             ('arange', ['std', 'wide'])] + common
 
 
-O3['-y'] = (0, -1, 0)          # antiparallel to the Euler default det_pos_init
+
 
 
 def configs(tier):
@@ -1313,6 +1400,10 @@ def configs(tier):
             if c['init'].startswith('matrix') and c['arr']:
                 continue                       # frommatrix takes no separate vectors
             c = dict(c, kind='geom', cls=cls)
+            if not thorough and IS3D[cls]:
+                c['scal'] = 'half'
+                if cls == 'Parallel3dEuler':
+                    c['ealph'] = 'small'
             key = repr(sorted(c.items()))
             if key not in seen:
                 seen.add(key)
